@@ -23,6 +23,7 @@
 -/
 import Ladybug.Proofs.C11Lemmas
 import Ladybug.Proofs.C11Obj
+import Ladybug.Proofs.C11Forms
 
 open Cal Real
 
@@ -741,3 +742,107 @@ example (o : Obj ℝ) : (step (fun n => (n : ℝ)) (fun _ => none) (fun i => (i 
 example (o : Obj ℝ) : (step (fun n => (n : ℝ)) (fun _ => none) (fun i => (i : ℝ)) o (.setPeriod (.error .assert))).2.isErr = true := rfl
 
 end SunpathObj
+
+
+/-! ### Round 4: the shape of the period and the way the Sunpath was made do not matter
+
+The real code is fed the same stored period as numbers, strings, text (`from_string`, `repr` round
+trips, padded / upper-case / full-width digits), dictionaries, start/end `DateTime`s, copies, with
+falsy defaults, with a clipped end day and with other time steps; the model is fed the six stored
+numbers.  The statements below say why that is the specification. -/
+
+namespace SunTimes
+
+open Cal C11Forms
+
+/-- `is_reversed` – the switch between the plain and the year-wrapping window test – is the
+    lexicographic order of the NUMBERS (month, day, hour) of the two ends: a period wraps the year end
+    exactly when its end triple comes before its start triple.  (For every well-formed period; the
+    stored seeded change C11-11 compared the constructor arguments as given, which is this order for
+    numbers and a different one for text, see the counterexample below.) -/
+theorem C11_dst_reversed_iff_lex (ap : AP) (hwf : ap.WF) :
+    ap.isReversed = true ↔
+      lexLt (ap.end_month, ap.end_day, ap.end_hour) (ap.st_month, ap.st_day, ap.st_hour) := by
+  unfold AP.isReversed
+  simp only [decide_eq_true_eq]
+  exact intHoy_lt_iff ap.endTime ap.stTime hwf.2.1 hwf.1 rfl
+
+/-- Text does not order like numbers: `"10" < "4"` while `4 < 10`; so an October-to-April period
+    whose months are compared as text is taken for a non-wrapping one.  The order of the numbers is
+    the one that decides (`C11_dst_reversed_iff_lex`). -/
+theorem C11_dst_text_order_counterexample :
+    ("10" < "4") ∧ ¬ ((10 : Nat) < 4) ∧
+      (⟨10, 4, 2, 4, 5, 3, 1, false⟩ : AP).isReversed = true ∧
+      isDst (some ⟨10, 4, 2, 4, 5, 3, 1, false⟩) 0 = true := by
+  refine ⟨by decide, by decide, by decide, by decide⟩
+
+/-- The time step of the period plays no role for daylight saving. -/
+theorem C11_dst_timestep_irrelevant (ap : AP) (t : Nat) (m : Nat) :
+    isDst (some { ap with timestep := t }) m = isDst (some ap) m := rfl
+
+/-- A well-formed period read back from its copy (`duplicate`), from its dictionary
+    (`from_dict(to_dict())`), from its start and end `DateTime`s or from the tokens of its text form
+    (`from_string(repr())`, token level as in C04) is the same period, so the daylight-saving test of
+    a Sunpath holding any of these forms is the test on the six stored numbers. -/
+theorem C11_dst_period_forms_agree (ap : AP) (hwf : ap.WF) (m : Nat) :
+    isDst ap.duplicate.toOption m = isDst (some ap) m ∧
+    isDst (AP.fromDict ap.toDict).toOption m = isDst (some ap) m ∧
+    isDst (AP.viaStartEnd ap).toOption m = isDst (some ap) m ∧
+    isDst (AP.fromTokens (ap.reprTokens.map fun (n : Nat) => some (n : Int)) ap.leap).toOption m
+      = isDst (some ap) m := by
+  obtain ⟨h1, h2, h3⟩ := AP.C04_copies_equal ap hwf
+  rw [h1, h2, h3, AP.C04_repr_roundtrip_partial ap hwf]
+  exact ⟨rfl, rfl, rfl, rfl⟩
+
+/-- Falsy constructor arguments (`None`, `0`) stand for the defaults: the period made from nothing
+    is 1 Jan 0h – 31 Dec 23h, which contains every minute before the last hour of the year. -/
+theorem C11_dst_falsy_defaults (leap : Bool) :
+    AP.mkOpt? none none none none none none none leap = .ok (AP.annual leap 1) ∧
+    AP.mkOpt? (some 0) (some 0) (some 0) (some 0) (some 0) none (some 0) leap = .ok (AP.annual leap 1) := by
+  cases leap <;> decide
+
+end SunTimes
+
+namespace SunpathObj
+
+open SunTimes
+
+section Made
+
+variable {α : Type} [Add α] [Sub α] [Mul α] [Div α] [Neg α] [OfScientific α] [LT α] [LE α]
+  [DecidableLT α] [DecidableLE α] [Transc α]
+variable (ofN : Nat → α) (toRat : α → Option Rat) (ofI : Int → α)
+
+/-- MADE BY SETTERS = MADE BY THE CONSTRUCTOR.  Take ANY Sunpath (a default one, or one used for
+    another place, year kind and period before) and assign period, north angle, longitude, time zone,
+    latitude and year kind (longitude before the zone: `None` is resolved with the longitude of that
+    moment).  When the constructor accepts the same values, every assignment is accepted and the
+    object is exactly the constructed one with `is_leap_year` set: nothing of the earlier life of the
+    object is left. -/
+theorem C11_made_by_setters (o0 f : Obj α) (lat lon north : α) (tz : Option α) (period : Option AP)
+    (leap : Bool) (h : construct lat lon tz north period = .ok f) :
+    (run ofN toRat ofI o0 [.setPeriod (.ok period), .setNorth (.ok north), .setLon (.ok lon),
+      .setTz (.ok tz), .setLat (.ok lat), .setLeap leap]).1 = { f with leap := leap } := by
+  unfold construct at h
+  split at h
+  · cases h
+  · split at h
+    · cases h
+    · simp only at h
+      split at h
+      · cases h
+      · split at h
+        · cases h
+        · rename_i h1 h2 h3 h4
+          cases h
+          simp only [Bool.not_eq_false] at h1 h2 h3 h4
+          simp [run, step, h1, h2, h3, h4]
+
+end Made
+
+end SunpathObj
+
+-- non-vacuity (round 4)
+example : (⟨10, 4, 2, 4, 5, 3, 1, false⟩ : AP).WF ∧ (⟨3, 8, 2, 11, 1, 2, 1, true⟩ : AP).WF := by decide
+example : C11Forms.lexLt (4, 5, 3) (10, 4, 2) ∧ ¬ C11Forms.lexLt (11, 1, 2) (3, 8, 2) := by decide
+example : SunTimes.isDst (some ⟨3, 8, 2, 11, 1, 2, 1, false⟩) 0 = false := by decide
